@@ -290,9 +290,33 @@ func (d *dirSpec) install(w *world, budget int) {
 // the translator (GenReplication.v), so a change of Min in the code shows up as a disagreement.
 var genBase = []uint64{1, 1, 1, 2007990}
 
+// pkgTick: every fourth lookup goes through the package-level convenience functions
+// (MinuteStateAt, ...), which delegate to replication.DefaultDatasource -- pointed at the
+// stand-in server for the duration of the call.
+var pkgTick int
+
 func stateAt(ds *replication.Datasource, kind int, t time.Time) (uint64, *replication.State, error) {
 	ctx, cancel := context.WithTimeout(context.Background(), 60*time.Second)
 	defer cancel()
+	pkgTick++
+	if pkgTick%4 == 0 {
+		old := *replication.DefaultDatasource
+		replication.DefaultDatasource.BaseURL, replication.DefaultDatasource.Client = ds.BaseURL, ds.Client
+		defer func() { *replication.DefaultDatasource = old }()
+		switch kind {
+		case 0:
+			n, s, err := replication.MinuteStateAt(ctx, t)
+			return uint64(n), s, err
+		case 1:
+			n, s, err := replication.HourStateAt(ctx, t)
+			return uint64(n), s, err
+		case 2:
+			n, s, err := replication.DayStateAt(ctx, t)
+			return uint64(n), s, err
+		}
+		n, s, err := replication.ChangesetStateAt(ctx, t)
+		return uint64(n), s, err
+	}
 	switch kind {
 	case 0:
 		n, s, err := ds.MinuteStateAt(ctx, t)
